@@ -512,6 +512,9 @@ func cmdRun(args []string) int {
 				var order []string
 				for _, m := range rep.Inconclusive {
 					k := trunc(strings.SplitN(m, "\n", 2)[0], 700)
+					if os.Getenv("VCHECK_FULLMSG") != "" && strings.HasPrefix(m, "ENGINE-ERROR") {
+						fmt.Fprintln(os.Stderr, "---- full engine error ----\n"+trunc(m, 6000))
+					}
 					if cnt[k] == 0 {
 						order = append(order, k)
 					}
